@@ -771,17 +771,13 @@ HASHER_UPDATE_CONTRACT
         : VFIN_ROOTP(h, VFIN_S(h, 0), VFIN_P(h, VFIN_S(h, 1), VFIN_S(h, 2)), ctr)))
 #define VROOT_CTR(seek, i) ((seek) / 64 + ((seek) % 64 + (uint64_t)(i)) / 64)
 #define VROOT_OFF(seek, i) (((seek) % 64 + (uint64_t)(i)) % 64)
-/* VERIF_FIN_BOUND: only the unit that PROVES the clause assumes the bound (it unwinds the roll-up loop);
- * the clause itself is guarded by the bound, so users of the contract get it for small stacks only */
-#ifdef VERIF_FN_FINALIZE_BOUNDED
-#define VERIF_FIN_BOUND(h) ((h)->cv_stack_len <= VERIF_FIN_MAXSTACK)
-#else
-#define VERIF_FIN_BOUND(h) 1
-#endif
-#define FINALIZE_FN(seek)                                                                \
-  FN(__CPROVER_requires(out_len == 0 || VERIF_FIN_BOUND(self)))                          \
-  FN(__CPROVER_ensures((VW_IN(out, out_len) && self->cv_stack_len <= VERIF_FIN_MAXSTACK) ==> \
-       VW_AT(out) == VBYTE(VFIN_ROOT(self, VROOT_CTR(seek, VW_IDX(out))), VROOT_OFF(seek, VW_IDX(out)))))
+/* the clause is proved by unit blake3_hasher_finalize_seek_fn, whose harness calls the function once per
+ * concrete stack length and asserts VFIN_POST itself (DFCC's write-set instrumentation of the enforced
+ * function makes the value flow through the struct copies intractable: 47 M clauses for 2 entries) */
+#define VFIN_POST(self, seek, out, out_len)                                              \
+  ((VW_IN(out, out_len) && (self)->cv_stack_len <= VERIF_FIN_MAXSTACK) ==>               \
+   VW_AT(out) == VBYTE(VFIN_ROOT(self, VROOT_CTR(seek, VW_IDX(out))), VROOT_OFF(seek, VW_IDX(out))))
+#define FINALIZE_FN(seek) FN(__CPROVER_ensures(VFIN_POST(self, seek, out, out_len)))
 
 /* finalize: the hasher is not in the assigns clause (finalize is a pure query of it);
  * exactly out[0..out_len) is written; with out_len == 0 nothing is even required to be
